@@ -93,6 +93,16 @@ def run_prog_case(prog, root, cnt, wall=120, style=apm.PLAIN):
         shutil.rmtree(sub, ignore_errors=True)
     c = {}
     verdict, msgs = compare(prog, o, c)
+    if verdict == "violation" and known_cycle(o, texts):
+        # the listed C08 finding 'definitional-cycle' (e.g. a lazily counted .repeat whose body mentions a later label): this input
+        # is outside what the other properties can be judged on; C08 owns it
+        verdict, msgs = "unmodelled", ["listed finding definitional-cycle (C08)"]
+        c["excluded_known_cycle"] = 1
     for k, v in c.items():
         cnt[k] = cnt.get(k, 0) + v
     return verdict, msgs, o, texts
+
+
+def known_cycle(o, texts):
+    from .findings import definitional_cycle
+    return (o.cls == "nonterm" or (o.cls == "internal" and o.exc_type == "DeferredCycle")) and definitional_cycle(list(texts.values()))
